@@ -555,6 +555,14 @@ theorem where_match_per_cell (cfg : Cfg) (hfix : cfg.matchPerCell = true) (col :
 example : compareScan Cfg.unfixed [.str [120, 49, 50, 121], .str [49, 50, 49]] .mtch (.scalar (.int 12)) = .ok [0] := by
   decide +kernel
 
+/-- equal numbers written differently are different patterns (`f'{arg}'` of the probe of the call,
+the dot unescaped): `match 1` finds `'1'`, `'v1'`, `'1.0'`, `'1x0'`; `match 1.0` finds `'1.0'`, `'1x0'` and
+neither `'1'` nor `'v1'` - whatever was asked before -/
+theorem match_probe_spelling_example :
+    [[49], [118, 49], [49, 46, 48], [49, 120, 48], [49, 49]].map (fun s => matchCell (.int 1) (.str s)) = [true, true, true, true, false] ∧
+    [[49], [118, 49], [49, 46, 48], [49, 120, 48], [49, 49]].map (fun s => matchCell (.flt 1) (.str s)) = [false, false, true, true, false] ∧
+    matchCell (.flt 1) (.int 1) = true ∧ matchCell (.int 1) (.flt 1) = true := by decide +kernel
+
 /-! ## `copy` and shared storage -/
 
 /-- **queries through one object never change another.**  Every table object of a run shows the
